@@ -936,6 +936,31 @@ async fn ce_headers_note(
     let note = q.b.clone();
     Ok(HttpResponseHeaders::new(HttpResponseOk(q), Hdrs { x_count: "1".into(), x_note: note }))
 }
+// a paginated listing (`ResultsPage<T>`): the first page of a collection of `n` items; the
+// empty page (n = 0) and the last page (no `next_page`) are pages like any other
+#[derive(Deserialize, Serialize, JsonSchema, Clone)]
+struct PgScan {
+    n: Option<u8>,
+}
+#[derive(Deserialize, Serialize, JsonSchema, Clone)]
+struct PgSel {
+    last: u32,
+}
+#[endpoint { method = GET, path = "/pg/items" }]
+async fn pg_items(
+    rqctx: Ctx,
+    q: Query<dropshot::PaginationParams<PgScan, PgSel>>,
+) -> Result<HttpResponseOk<dropshot::ResultsPage<Inner>>, HttpError> {
+    let p = q.into_inner();
+    let limit = rqctx.page_limit(&p)?.get() as usize;
+    let (scan, start) = match &p.page {
+        dropshot::WhichPage::First(s) => (s.clone(), 0u32),
+        dropshot::WhichPage::Next(sel) => (PgScan { n: None }, sel.last + 1),
+    };
+    let n = scan.n.unwrap_or(0) as u32; // no `n`: the empty collection
+    let items: Vec<Inner> = (start..n).take(limit).map(|i| Inner { x: i as u8, y: Some(format!("item {}", i)) }).collect();
+    Ok(HttpResponseOk(dropshot::ResultsPage::new(items, &scan, |i: &Inner, _| PgSel { last: i.x as u32 })?))
+}
 // path + query + body together
 #[endpoint { method = PUT, path = "/c/{id}" }]
 async fn c_all(
@@ -1124,6 +1149,20 @@ fn build_api() -> (ApiDescription<()>, Vec<Ep>) {
         let mut v = d(None, Some(QReq::ty()), None, Some(QReq::ty()), "ok", Some(Hdrs::ty()));
         // the response header x_note carries the query parameter `b` as it was received
         v["hdrFrom"] = json!("b");
+        v
+    });
+    reg!(pg_items, "get", "/pg/items", {
+        let q = json!({"struct": [
+            ["limit", {"opt": {"nonzero": 32}}, false],
+            ["n", {"opt": {"int": [8, false]}}, false],
+            ["page_token", {"opt": "str"}, false],
+        ]});
+        let mut v = d(None, Some(q), None, None, "ok", None);
+        // the response is a `ResultsPage`, outside the model's type universe: nothing is predicted
+        // about the body, the specification still validates it against the document
+        v["respOpaque"] = json!(true);
+        // a page token is not something a client makes up from the document
+        v["noGen"] = json!(["page_token"]);
         v
     });
     reg!(c_all, "put", "/c/{id}",
@@ -1416,7 +1455,8 @@ fn main() {
             let mut ps = Vec::new();
             for p in &params {
                 let required = p["required"].as_bool().unwrap_or(false);
-                let include = required || all.unwrap_or_else(|| r.chance(1, 2));
+                let no_gen = desc["noGen"].as_array().map(|a| a.iter().any(|x| x == &p["name"])).unwrap_or(false);
+                let include = !no_gen && (required || all.unwrap_or_else(|| r.chance(1, 2)));
                 if include {
                     let inpath = p["in"] == "path";
                     let mut v = gen_value(&doc, &p["schema"], r, 1, inpath);
